@@ -8,7 +8,9 @@ CLAIMS = {
  "C15": dict(
     text="Bounded model checking of the production cursor/frontier functions (MIR of cursor.rs, context.rs translated to C, "
          "CBMC threads): all interleavings and all start states within n<=3..4 txs, 3-4 threads, <=2-3 CAS retries. Decides "
-         "reissue-after-rewind, limit safety and frontier safety/catch-up; the timestamp clause is decided in C02's finality harnesses.",
+         "reissue-after-rewind, limit safety and frontier safety/catch-up. Timestamp clause: inductive-step kernels (arbitrary pre-state "
+         "satisfying a stated invariant) on the real rewind_validation_to / validate / execute_task / lock_finality_candidate: a stale "
+         "Unconfirmed transaction is always fenced by a newer rewind timestamp at or below it, so finality never accepts it.",
     note=TRUST + "Sequential consistency only (weak-memory behaviours of the declared orderings are outside the claim); "
          "schedules needing more CAS retries than the bound are outside the claim.",
     design="5/C15"),
@@ -44,6 +46,18 @@ CLAIMS = {
          "the suffix replay body and the executor are solver-chosen oracles in these kernels (commit itself is decided in C03). Faults inside "
          "revm opcodes other than through these interfaces are outside the claim. n<=3, <=2 environment steps in the commit-loop kernel.",
     design="5/C04"),
+ "C02": dict(
+    text="One inductive step with concurrency inside on the real scheduler code (next -> validate, execute_task with a ghost executor, "
+         "lock_finality_candidate; real multi-version memory model; n=3, one maximally contended location): from ANY state satisfying a "
+         "stated invariant, each role alone and the pairs validation||finality, execution||finality (second role atomic at every conflicting "
+         "visible operation of the first: context bound A|B|A) re-establish the invariant, and whenever finality hands out a transaction its "
+         "recorded read version is the latest non-estimate entry of its predecessors -- a speculative result computed from state a predecessor "
+         "changed afterwards is never finalised. Commit order / exactly-once / exact prefix of the commit loop: C04 h2.",
+    note=TRUST + "Abstraction: every transaction reads and writes one location; the executor is a ghost doing IncarnationDb's read-latest-below/"
+         "publish for it; re-executions with unchanged write sets start from the Executing state of a first incarnation only. A counterexample "
+         "from a pre-state no history reaches would mean the invariant is too weak (none found). Pairs that split both roles, the pairs "
+         "V||R, and n>3 are outside the claim. The three finality-loop body statements are harness glue around the real lock_finality_candidate.",
+    design="5/C02"),
 }
 NA = {}
 props = [json.loads(l) for l in open(os.path.join(V, "properties.jsonl"))]
